@@ -18,8 +18,7 @@ import types
 from mc import sched as S
 
 
-class Empty(Exception):
-    pass
+from queue import Empty, Full   # multiprocessing.queues.Empty IS queue.Empty: code may catch either name
 
 
 class World(object):
@@ -199,10 +198,26 @@ def install():
     import playback.studio.equalizer as EQ
     if _installed:
         return _installed
-    vmp = types.SimpleNamespace(Queue=VQueue, Event=VEvent, Process=VProcess, queues=types.SimpleNamespace(Empty=Empty),
-                                active_children=lambda: [p for p in W[0].procs if p.t and not p.t.done and not p.t.killed],
-                                get_context=lambda *a, **k: vmp_ref[0], current_process=real_mp.current_process)
-    vmp_ref = [vmp]
+    class _VMP(object):
+        """The virtual `multiprocessing`: what is modelled is virtual, harmless helpers pass through, anything else that would create
+        a real OS object is a harness error (exit 2), never silently real."""
+        Queue, Event, Process = VQueue, VEvent, VProcess
+        queues = types.SimpleNamespace(Empty=Empty, Full=Full, Queue=VQueue)
+        active_children = staticmethod(lambda: [p for p in W[0].procs if p.t and not p.t.done and not p.t.killed])
+        current_process = staticmethod(real_mp.current_process)
+        PASS = ('TimeoutError', 'ProcessError', 'AuthenticationError', 'BufferTooShort', 'cpu_count', 'get_start_method', 'get_all_start_methods',
+                'parent_process', 'freeze_support', 'log_to_stderr', 'get_logger', 'util')
+
+        def get_context(self, *a, **k):
+            return self
+
+        def __getattr__(self, n):
+            if n in self.PASS:
+                return getattr(real_mp, n)
+            from mc.core import HarnessError
+            raise HarnessError('equalizer uses multiprocessing.%s, which the virtual layer does not model' % n)
+    vmp = _VMP()
+    virtual_clock = lambda: W[0].clock
 
     class _Os(object):
         def __getattr__(self, n):
@@ -215,19 +230,30 @@ def install():
         elif v is real_os:
             setattr(EQ, n, _Os())
             _installed[n] = 'os'
-        elif v is real_time.time:
-            setattr(EQ, n, lambda: W[0].clock)
-            _installed[n] = 'time.time'
+        elif any(v is f for f in (real_time.time, real_time.monotonic, real_time.perf_counter)):
+            _installed[n] = 'time.' + v.__name__
+            setattr(EQ, n, virtual_clock)
         elif v is real_time:
-            setattr(EQ, n, types.SimpleNamespace(time=lambda: W[0].clock, sleep=lambda d: None))
+            shim = types.SimpleNamespace(**{k: getattr(real_time, k) for k in dir(real_time) if not k.startswith('__')})
+            shim.time = shim.monotonic = shim.perf_counter = virtual_clock
+            shim.sleep = lambda d: None
+            setattr(EQ, n, shim)
             _installed[n] = 'time'
+        elif v is real_mp.Queue or v is real_mp.Event or v is real_mp.Process:
+            setattr(EQ, n, {'Queue': VQueue, 'Event': VEvent, 'Process': VProcess}[v.__name__])
+            _installed[n] = 'multiprocessing.' + v.__name__
+    if not any(w.startswith('time') for w in _installed.values()) or not any(w.startswith('multiprocessing') for w in _installed.values()):
+        from mc.core import HarnessError
+        raise HarnessError('equalizer module: clock or multiprocessing seam not found (found %s): the seam scan must be extended' % sorted(_installed.values()))
     return _installed
 
 
 def uninstall():
     import playback.studio.equalizer as EQ
     for n, what in _installed.items():
-        setattr(EQ, n, {'multiprocessing': real_mp, 'os': real_os, 'time.time': real_time.time, 'time': real_time}[what])
+        setattr(EQ, n, {'multiprocessing': real_mp, 'os': real_os, 'time.time': real_time.time, 'time.monotonic': real_time.monotonic,
+                        'time.perf_counter': real_time.perf_counter, 'time': real_time, 'multiprocessing.Queue': real_mp.Queue,
+                        'multiprocessing.Event': real_mp.Event, 'multiprocessing.Process': real_mp.Process}[what])
     _installed.clear()
 
 
